@@ -674,6 +674,10 @@ class ExprMixin(CallMixin):
                 idx = Sym("slice", lo, hi, st)
             if isinstance(base, Const) and isinstance(base.v, (str, tuple)) and all(isinstance(x, Const) for x in idx.args):
                 return Const(base.v[slice(lo.v, hi.v, st.v)])
+            if all(isinstance(x, Const) for x in idx.args) and lo.v is None and hi.v is None and st.v == -1:
+                rvw = self.reversed_view(base)
+                if rvw is not None:
+                    return rvw
             if isinstance(base, (PyList, PyTuple)) and not getattr(base, "loop_parts", None) and all(isinstance(x, Const) for x in idx.args):
                 items = base.items[slice(lo.v, hi.v, st.v)]
                 return PyList(items) if isinstance(base, PyList) else PyTuple(items)
